@@ -232,8 +232,12 @@ func (w *World) protected(fn *ssa.Function, memo map[*ssa.Function]int) (bool, s
 			}
 			cf := mc.Fn.(*ssa.Function)
 			callsRecover, setsErr := false, false
+			rePanics := false
 			for _, cb := range cf.Blocks {
 				for _, ci := range cb.Instrs {
+					if _, isP := ci.(*ssa.Panic); isP {
+						rePanics = true
+					}
 					if c, ok := ci.(*ssa.Call); ok {
 						if bi, ok := c.Call.Value.(*ssa.Builtin); ok && bi.Name() == "recover" {
 							callsRecover = true
@@ -249,6 +253,10 @@ func (w *World) protected(fn *ssa.Function, memo map[*ssa.Function]int) (bool, s
 				}
 			}
 			// the defer must be registered before any work: in the entry block
+			if callsRecover && setsErr && rePanics && b.Index == 0 {
+				memo[fn] = 3
+				return false, "the deferred recover at " + w.instrPos(df) + " re-panics for some recovered values: those panics still escape to the caller"
+			}
 			if callsRecover && setsErr && b.Index == 0 {
 				memo[fn] = 2
 				return true, "deferred recover at " + w.instrPos(df) + " assigns the error result"
@@ -417,7 +425,9 @@ func rulesC16(w *World, r *Report) {
 		acc := fn.Params[1]
 		// membership test and insertion on the accumulator
 		var missBlocks []*ssa.BasicBlock
+		var missKeys []string
 		var inserts []*ssa.MapUpdate
+		ff := w.flow(fn)
 		for _, b := range fn.Blocks {
 			for _, in := range b.Instrs {
 				switch x := in.(type) {
@@ -428,6 +438,7 @@ func rulesC16(w *World, r *Report) {
 								for _, r2 := range *ex.Referrers() {
 									if iff, ok := r2.(*ssa.If); ok {
 										missBlocks = append(missBlocks, iff.Block().Succs[1])
+										missKeys = append(missKeys, ff.term(x.Index).Key())
 									}
 								}
 							}
@@ -456,18 +467,20 @@ func rulesC16(w *World, r *Report) {
 			nR++
 			cnt++
 			guarded, inserted := false, false
-			for _, mb := range missBlocks {
-				if mb.Dominates(c.Block()) {
-					guarded = true
+			for mi, mb := range missBlocks {
+				if !mb.Dominates(c.Block()) {
+					continue
 				}
-			}
-			for _, mu := range inserts {
-				if mu.Block().Dominates(c.Block()) {
-					inserted = true
+				guarded = true
+				// the key inserted must be the key tested
+				for _, mu := range inserts {
+					if mu.Block().Dominates(c.Block()) && ff.term(mu.Key).Key() == missKeys[mi] {
+						inserted = true
+					}
 				}
 			}
 			r.add("C16.R1 recursion has a visited cut-off", fmt.Sprintf("%s · recursive call on a field type #%d", fnName(fn), cnt), w.instrPos(c), guarded && inserted,
-				fmt.Sprintf("dominated by the miss edge of a membership test on the accumulator=%v, by the insertion=%v (without both a self-referential type recurses until the stack overflows)", guarded, inserted))
+				fmt.Sprintf("dominated by the miss edge of a membership test on the accumulator=%v, by the insertion of the SAME key=%v (otherwise a self-referential type recurses until the stack overflows)", guarded, inserted))
 		}
 	}
 	// R1b: value walk with an extractor
@@ -560,6 +573,9 @@ func rulesC16(w *World, r *Report) {
 		}
 	}
 	r.floor("C16.R1 recursion obligations", nR, 6)
+	if ev != nil {
+		w.ruleWalkVisitsAll(r, "C16.R4 the value walk visits every element", ev)
+	}
 
 	// R2 absent containers are descended by type
 	if ev != nil {
@@ -649,6 +665,83 @@ func rulesC16(w *World, r *Report) {
 		}
 	}
 	r.floor("C16.R3 nameMap updates", nP, 3)
+}
+
+// ruleWalkVisitsAll: every loop of the value walk that recurses leaves only
+// through its counter/range and makes the same number of recursive calls on
+// every iteration path (1 per element or field, 2 per map entry).
+func (w *World) ruleWalkVisitsAll(r *Report, rule string, ev *ssa.Function) {
+	n := 0
+	f := w.flow(ev)
+	for li, lp := range naturalLoops(ev) {
+		has := false
+		for b := range lp.body {
+			if len(callsToIn(b, ev)) > 0 {
+				has = true
+			}
+		}
+		if !has {
+			continue
+		}
+		n++
+		key := fmt.Sprintf("ExtractValue · loop#%d", li+1)
+		// exits
+		okExit := true
+		factExit := "leaves only through its counter"
+		for b := range lp.body {
+			for _, s2 := range b.Succs {
+				if lp.body[s2] {
+					continue
+				}
+				iff, isIf := b.Instrs[len(b.Instrs)-1].(*ssa.If)
+				if !isIf {
+					continue
+				}
+				kind, detail := w.classifyExitCond(iff.Cond, map[*ssa.Call]bool{}, lp)
+				if kind != "counter" {
+					okExit = false
+					factExit = "the loop is left on " + detail + " at " + w.instrPos(iff) + ": the remaining elements are not walked, so types reachable only through them are missing from the maps"
+				}
+			}
+		}
+		counts := map[int]bool{}
+		var dfs func(b *ssa.BasicBlock, k int, seen map[*ssa.BasicBlock]bool)
+		dfs = func(b *ssa.BasicBlock, k int, seen map[*ssa.BasicBlock]bool) {
+			if b == lp.header {
+				counts[k] = true
+				return
+			}
+			if !lp.body[b] || seen[b] {
+				return
+			}
+			seen[b] = true
+			defer delete(seen, b)
+			k += len(callsToIn(b, ev))
+			for _, s2 := range b.Succs {
+				dfs(s2, k, seen)
+			}
+		}
+		for _, s2 := range lp.header.Succs {
+			if lp.body[s2] {
+				dfs(s2, 0, map[*ssa.BasicBlock]bool{})
+			}
+		}
+		var got []int
+		for k := range counts {
+			got = append(got, k)
+		}
+		sort.Ints(got)
+		kinds := f.kindsAt(lp.header)
+		want := 1
+		for _, k := range kinds {
+			if k == "Map" && len(kinds) == 1 {
+				want = 2
+			}
+		}
+		ok := okExit && len(got) == 1 && got[0] == want
+		r.add(rule, key, w.pos(ev.Pos()), ok, fmt.Sprintf("kinds %v: %s; recursive calls per completed iteration %v (want exactly %d)", kinds, factExit, got, want))
+	}
+	r.floor(rule, n, 3)
 }
 
 // sameCell: two map values are the same variable (same free variable load /
